@@ -1,6 +1,6 @@
 CONSTANTS
   Servers <- S2
-  Idents <- Id2
+  Idents <- Id2x
   Home <- HomeAll
   Flows <- F1
   FlowDef <- FD
@@ -8,12 +8,13 @@ CONSTANTS
   NPorts = 4
   W = 5
   A = 6
-  M = 13
-  I = 4
+  M = 8
+  I = 2
   B = 1
-  Deltas <- D12
+  Deltas <- D3
   OtherKinds <- NoOther
   Strict = FALSE
+  ExK = 1
   D = 0
 INIT Init
 NEXT NextR
